@@ -82,12 +82,26 @@ def run_c11(case, eng, res):
 
     def body(path):
         te = timeenv.setup(path, rows)
-        if kind == "roundtrip":
+        if kind in ("roundtrip", "second"):
+            info = {}
+            if kind == "second":
+                # an earlier encoding in the same process, then time passes (harness clock reads mark the interval)
+                t0, _h0, _m0 = TA.sym_hhmm(path, "t0")
+                try:
+                    tools.time_to_hexadecimal_timestamp(t0)
+                except Exception:  # noqa: BLE001
+                    pass
+                info["first_text"] = t0
+                te.now()
+            info["r0"] = len(te.reads)
             text, h, m = TA.sym_hhmm(path, "t")
-            info = dict(text=text, h=h, m=m)
+            info.update(text=text, h=h, m=m)
             try:
                 enc = tools.time_to_hexadecimal_timestamp(text)
                 info["enc"] = enc
+                if kind == "second":
+                    te.now()
+                info["r1"] = len(te.reads)
                 dec = tools.hexadecimale_timestamp_to_localtime(enc.m_encode() if isinstance(enc, SymSeq) else enc.encode())
                 info["dec"] = dec
                 return ("ok", info)
@@ -112,7 +126,7 @@ def run_c11(case, eng, res):
         tag, info = out
         te = path.notes["timeenv"]
         checks = []
-        if kind == "roundtrip":
+        if kind in ("roundtrip", "second"):
             if tag == "exc":
                 checks.append(("existing_time_encodes", True))
             else:
@@ -122,7 +136,10 @@ def run_c11(case, eng, res):
                 else:
                     raw = stubs.s_unhexlify(enc)
                     v = stubs.int_from_units(list(raw.items), "little")
-                    checks.append(("epoch_second_of_local_time_today_LE32", b_not(TA.local_target_ok(te, v, te.reads[:1], info["h"], info["m"]))))
+                    # "today" = the local date of a clock reading made while this call ran (second call: between the two
+                    # harness readings that bracket it, the readings themselves included)
+                    reads = te.reads[:1] if kind == "roundtrip" else te.reads[max(0, info["r0"] - 1):info["r1"]]
+                    checks.append(("epoch_second_of_local_time_today_LE32", b_not(TA.local_target_ok(te, v, reads, info["h"], info["m"]))))
                     dec = info["dec"]
                     checks.append(("decode_returns_same_HH_MM", b_not(sym_eq(dec, info["text"]))))
         else:
@@ -149,8 +166,15 @@ def run_c11(case, eng, res):
 
 
 def c11_replay(path, m, info, rows, kind, oracle):
-    return {"kind": "c11", "mode": kind, "text": C.ev_seq(m, info["text"]), "zone": zone_of(path, m, rows),
-            "clock": clock_list(path, m), "oracle": oracle}
+    d = {"kind": "c11", "mode": kind, "text": C.ev_seq(m, info["text"]), "zone": zone_of(path, m, rows),
+         "clock": clock_list(path, m), "oracle": oracle}
+    if "first_text" in info:
+        d["first_text"] = C.ev_seq(m, info["first_text"])
+        te = path.notes["timeenv"]
+        r0, r1 = info["r0"], info.get("r1", len(te.reads))
+        own = te.reads[r0] if r0 < r1 - 1 else te.reads[r0 - 1]
+        d["clock"] = [C.ev_int(m, te.reads[0]) + 0.25, C.ev_int(m, own) + 0.25]
+    return d
 
 
 def _cmp_c11(exp, o):
@@ -165,6 +189,7 @@ def main_c11(tier):
     zones = timeenv.ZONES if tier == "thorough" else ["UTC", "Asia/Jerusalem", "Australia/Lord_Howe", "America/St_Johns",
                                                       "Pacific/Kiritimati", "Pacific/Pago_Pago", "Asia/Kathmandu"]
     cases = [{"kind": "roundtrip", "zone": z} for z in zones]
+    cases += [{"kind": "second", "zone": z} for z in (zones if tier == "thorough" else ["Asia/Jerusalem", "Pacific/Kiritimati", "America/St_Johns"])]
     maxn = 6 if tier == "quick" else 8
     cases += [{"kind": "free", "zone": "UTC", "n": n} for n in range(0, maxn + 1)]
     results = H.run_cases("harness.timeprops", "run_c11", cases, timeout_ms=120000 if tier == "quick" else 600000)
@@ -187,6 +212,24 @@ DAYN = TA.DAY_NAMES
 DAYV = ["Monday", "Tuesday", "Wednesday", "Thursday", "Friday", "Saturday", "Sunday"]
 
 
+def _next_run_ok(te, t, got, T, info, dayidx):
+    """the text `got` names the earliest upcoming run seen from the local wall clock of instant t"""
+    te.path.assume(bterm(te.in_window(t)))
+    day, hh, mm, ss = te.decomp(t + te.off(t), "spec")
+    wd = te.weekday_of_day(day)
+    now_min = hh * 60 + mm
+    start_min = info["h"] * 60 + info["m"]
+    alts = []
+    for w in range(7):
+        here = i_eq(wd, w)
+        today_ok = b_and(w in dayidx, start_min > now_min)
+        k1 = next(k for k in range(1, 8) if (w + k) % 7 in dayidx)
+        name = DAYV[(w + k1) % 7]
+        later = T("Due tomorrow at ") if k1 == 1 else T("Due next %s at " % name)
+        alts.append(b_and(here, b_or(b_and(today_ok, sym_eq(got, T("Due today at "))), b_and(b_not(today_ok), sym_eq(got, later)))))
+    return b_or(*alts)
+
+
 def run_c13(case, eng, res):
     tools = loader.load("schedule.tools")
     sched = loader.load("schedule")
@@ -198,9 +241,17 @@ def run_c13(case, eng, res):
     def body(path):
         te = timeenv.setup(path, rows)
         text, h, m = TA.sym_hhmm(path, "t")
-        info = dict(text=text, h=h, m=m)
+        info = dict(text=text, h=h, m=m, r0=0)
         try:
+            if case.get("second"):
+                # the same question asked earlier in the same process; then time passes
+                tools.pretty_next_run(text, set(days))
+                te.now()
+                info["r0"] = len(te.reads)
             info["out"] = tools.pretty_next_run(text, set(days))
+            if case.get("second"):
+                te.now()
+            info["r1"] = len(te.reads)
             return ("ok", info)
         except Exception as e:  # noqa: BLE001
             info["exc"] = e
@@ -229,27 +280,15 @@ def run_c13(case, eng, res):
             if not dayidx:
                 good = sym_eq(got, T("Due today at "))
             else:
-                if not te.reads:
+                lo_i = max(0, info["r0"] - 1) if case.get("second") else 0
+                cand = te.reads[lo_i:info.get("r1", len(te.reads))]
+                if not cand:
                     # the clock was never consulted although days are selected
                     good = False
+                elif len(cand) > 1:
+                    good = b_or(*[_next_run_ok(te, t, got, T, info, dayidx) for t in cand])
                 else:
-                    t = te.reads[0]
-                    te.path.assume(bterm(te.in_window(t)))
-                    day, hh, mm, ss = te.decomp(t + te.off(t), "spec")
-                    wd = te.weekday_of_day(day)
-                    now_min = hh * 60 + mm
-                    start_min = info["h"] * 60 + info["m"]
-                    alts = []
-                    for w in range(7):
-                        # earliest k for current weekday w
-                        here = i_eq(wd, w)
-                        today_ok = b_and(w in dayidx, start_min > now_min)
-                        k1 = next(k for k in range(1, 8) if (w + k) % 7 in dayidx)
-                        name = DAYV[(w + k1) % 7]
-                        later = T("Due tomorrow at ") if k1 == 1 else T("Due next %s at " % name)
-                        alts.append(b_and(here, b_or(b_and(today_ok, sym_eq(got, T("Due today at "))),
-                                                     b_and(b_not(today_ok), sym_eq(got, later)))))
-                    good = b_or(*alts)
+                    good = _next_run_ok(te, cand[0], got, T, info, dayidx)
             checks.append(("names_earliest_upcoming_run", b_not(good)))
         for lbl, bad in checks:
             res["checks"][lbl] = res["checks"].get(lbl, 0) + 1
@@ -271,8 +310,14 @@ def run_c13(case, eng, res):
 
 
 def c13_replay(path, m, info, rows, dayidx, oracle):
-    return {"kind": "c13", "start": C.ev_seq(m, info["text"]), "days": [DAYN[k] for k in dayidx], "zone": zone_of(path, m, rows),
-            "clock": clock_list(path, m), "oracle": oracle}
+    d = {"kind": "c13", "start": C.ev_seq(m, info["text"]), "days": [DAYN[k] for k in dayidx], "zone": zone_of(path, m, rows),
+         "clock": clock_list(path, m), "oracle": oracle}
+    if info.get("r0"):
+        te = path.notes["timeenv"]
+        own = te.reads[info["r0"]] if info["r0"] < info.get("r1", 0) - 1 else te.reads[info["r0"] - 1]
+        d["second"] = True
+        d["clock"] = [C.ev_int(m, te.reads[0]) + 0.25, C.ev_int(m, own) + 0.25]
+    return d
 
 
 def main_c13(tier):
@@ -281,10 +326,12 @@ def main_c13(tier):
     if tier == "thorough":
         zones = timeenv.ZONES
         cases = [{"zone": z, "mask": mk} for z in zones for mk in range(128)]
+        cases += [{"zone": z, "mask": mk, "second": True} for z in ("Asia/Jerusalem", "America/New_York", "UTC") for mk in range(1, 128, 7)]
     else:
         cases = [{"zone": z, "mask": mk} for z in ("Asia/Jerusalem", "America/New_York") for mk in range(128)]
         cases += [{"zone": z, "mask": mk} for z in ("UTC", "Australia/Lord_Howe", "Pacific/Kiritimati", "Pacific/Pago_Pago")
                   for mk in (0, 1, 64, 65, 3, 0x2A, 0x55, 127)]
+        cases += [{"zone": "Asia/Jerusalem", "mask": mk, "second": True} for mk in (1, 3, 64, 0x55, 127)]
     results = H.run_cases("harness.timeprops", "run_c13", cases, timeout_ms=120000 if tier == "quick" else 600000)
     nw = H.validate_call_witnesses(results, cmp=lambda exp, o: ("exception" in exp and "exception" in o) or
                                    ("result" in exp and o.get("result") == exp["result"]))
